@@ -115,7 +115,7 @@ pub fn run_normalize(cat: &Rc<Cat>, evs: &[AEv]) -> String {
 
 pub fn gen_norm(rng: &mut Rng, idx: usize) -> Case {
     let _ = idx;
-    let specs = gen_catalog_specs(rng, 3);
+    let specs = gen_catalog_specs_twins(rng, 3);
     let cat = Rc::new(Cat::new(&specs));
     let sticky = *rng.pick(&[0usize, 0, 3, 6, 8]);
     let mut evs = gen_contract_stream(rng, &cat, sticky);
